@@ -265,10 +265,29 @@ def m3(ck: Check) -> None:
                   f"None returned although the key may be present (path condition {logic.show(pc)})")
         else:
             v = text(r.value)
-            ok = len(in_atoms) == 1 and logic.implies(pc, ("atom", in_atoms[0])) and v.startswith("self.node_indices[") \
-                and in_atoms[0][1] == f"in:{fm.key(r.value.slice, rn)}|self.node_indices"
+
+            def is_key(e):
+                if keycalls and e is keycalls[0]:
+                    return True
+                if isinstance(e, ast.Name):
+                    d = fm.single_def(e.id, rn)
+                    return bool(d and keycalls and d[1] is keycalls[0])
+                return False
+            rv = fm.canon_ast(r.value, rn)
+            raw = r.value
+            if isinstance(raw, ast.Name):
+                d = fm.single_def(raw.id, rn)
+                raw = d[1] if d and not fm.stale(d[0], rn, d[1]) else raw
+            if isinstance(raw, ast.Call) and isinstance(raw.func, ast.Attribute) and raw.func.attr == "get" \
+                    and text(raw.func.value) == "self.node_indices" and raw.args and is_key(raw.args[0]) \
+                    and (len(raw.args) == 1 or is_none(raw.args[1])) and not raw.keywords:
+                ok = True  # dict.get: the stored id on a hit, None on a miss
+            else:
+                ok = len(in_atoms) == 1 and logic.implies(pc, ("atom", in_atoms[0])) and isinstance(raw, ast.Subscript) \
+                    and text(raw.value) == "self.node_indices" and is_key(raw.slice) \
+                    and in_atoms[0][1] == f"in:{fm.key(raw.slice, rn)}|self.node_indices"
             ck.ob("M3", fm, r, ok, "stored id returned on a hit" if ok else
-                  f"`{v}` returned; expected node_indices[key] under `key in node_indices`")
+                  f"`{v}` returned; expected node_indices[key] under `key in node_indices` (or node_indices.get(key))")
     # key arithmetic
     kf = prog.fm("biobalm.space_utils", "space_unique_key")
     probs = []
